@@ -1,6 +1,6 @@
 \* spec mutation: zero-valued node status is taken at face value
 CONSTANTS Catalogs = {1}  Limits = {0}  Daemons = {1}  Batches = {1}  Laters = {0}
-CONSTANTS MaxRounds = 3  MaxClaims = 3  MaxSteps = 5  Resyncs = {FALSE}  EphForms = {2}  StForms = {2}
+CONSTANTS MaxRounds = 3  MaxClaims = 3  MaxSteps = 5  AllowForeign = TRUE  Resyncs = {FALSE}  EphForms = {2}  StForms = {2}
 CONSTANTS W_NoSyncGate = FALSE  W_SubMin = FALSE  W_SubDominating = FALSE  W_StartupBlocks = FALSE  W_CountMarked = FALSE  W_ZeroSkips = FALSE  W_NoZeroFallback = TRUE  W_DaemonTwice = FALSE  W_SyncBeforeBatch = FALSE  C_NodesPerPass = FALSE  C_OverrideBase = FALSE
 SPECIFICATION Spec
 VIEW view
